@@ -64,21 +64,26 @@ class JsonSchemaGenerator:
             enum_type = None
             enum_values = []
             enum_map = {}
+            value_types = set()
             for key, val in t.__members__.items():
                 enum_values.append(val.value)
                 enum_map[key] = val.value
                 enum_type = type(val.value)
+                value_types.add(enum_type)
             if not isinstance(base, EnumMeta):
                 enum_type = base
-            prim = self._get_primitive(enum_type)
-            fmt = self._get_format(enum_type)
+            elif len(value_types) > 1:
+                # members of different types: no single "type" describes them, "enum" alone does
+                enum_type = None
             data = {
-                "type": prim,
                 "enum": enum_values,
                 "x-annotation": {
                     "enums": enum_map
                 }
             }
+            if enum_type is not None or not enum_values:
+                data = {"type": self._get_primitive(enum_type), **data}
+            fmt = self._get_format(enum_type)
             if fmt:
                 data.update(format=fmt)
             return data
